@@ -2,6 +2,7 @@ import RaftVerif.Model.Quorum
 import RaftVerif.Model.Parse
 import RaftVerif.Model.RawNode
 import RaftVerif.Spec.Check
+import RaftVerif.Spec.ReconfCheck
 /-!
 Line-protocol driver (compiled as `raftmodel`): one operation per input line, one answer per line.
 See DESIGN.md Appendix B. Core Lean only.
@@ -198,6 +199,7 @@ structure DriverState where
   nodes : List (Nat × Slot) := []
   verbose : Bool := false
   spec : Spec.Checker := {}
+  specR : SpecR.Checker := {}
   logs : List (Nat × RaftLog) := []
   ros : List (Nat × ReadOnly) := []
 
@@ -469,6 +471,25 @@ def step (st : DriverState) (line : String) : DriverState × String :=
     | none =>
       let want := " ".intercalate rest
       let got := Spec.verText (st.spec.st.nodes (natOrZero n)).dur
+      if want == got then (st, "ok") else (st, s!"DIFF spec-dur=[{got}] impl=[{want}]")
+  | ["spr", "init", c0, c1] =>
+    ({ st with specR := { c0 := (idList c0, idList c1) } }, "ok")
+  | "spr" :: "a" :: rest =>
+    let (c, out) := st.specR.act rest
+    ({ st with specR := c }, out)
+  | "spr" :: "cmp" :: n :: rest =>
+    match st.specR.failed with
+    | some _ => (st, "skipped")
+    | none =>
+      let want := " ".intercalate rest
+      let got := SpecR.nodeText st.specR.c0 st.specR.st (natOrZero n)
+      if want == got then (st, "ok") else (st, s!"DIFF spec=[{got}] impl=[{want}]")
+  | "spr" :: "cmpd" :: n :: rest =>
+    match st.specR.failed with
+    | some _ => (st, "skipped")
+    | none =>
+      let want := " ".intercalate rest
+      let got := SpecR.verText (st.specR.st.nodes (natOrZero n)).dur
       if want == got then (st, "ok") else (st, s!"DIFF spec-dur=[{got}] impl=[{want}]")
   | "n" :: k :: op :: rest =>
     let k := natOrZero k
